@@ -163,6 +163,12 @@ func corpus(tier string) ([]History, []string) {
 		Op{K: "control", E: 0, Ev: 3},
 		Op{K: "control", E: 0, Ev: 2, Fail: true},
 		Op{K: "destroy", E: 0, Allow: true})
+	// seeded change C06-3 / finding C06-d: a deployment that fails after some tasks were launched
+	add("partial-deployment",
+		Op{K: "create", E: 0, Spec: &Spec{Hosts: []int{0}, Fail: 6, Roles: []Role{plain(0, true), plain(1, false), hookTask(1, false, 2, false), {Kind: KPlain, Host: 2, Launch: 2}}}},
+		Op{K: "cleanup"},
+		cr(1, []int{0}, plain(0, true)),
+		Op{K: "destroy", E: 1})
 	add("create-undeployable",
 		Op{K: "create", E: 0, Spec: &Spec{Hosts: []int{0}, Fail: 4, Roles: []Role{plain(0, true)}}},
 		cr(1, []int{0}, plain(0, true)))
@@ -275,7 +281,7 @@ func genSpec(r *gen.Rand, envs []*genEnv, allowSlow bool) *Spec {
 		s.Fail = 3
 		s.Hosts = append(s.Hosts, 5)
 	case x < 13 && allowSlow:
-		s.Fail = 4
+		s.Fail = []int{4, 6, 6}[r.Intn(3)]
 	case x < 20:
 		// one critical task dies right after launch; maybe another one is still staging then
 		i := taskIdx[r.Intn(len(taskIdx))]
@@ -370,7 +376,7 @@ func randomHistory(r *gen.Rand, allowSlow bool) (History, string) {
 		case x < 38 && len(envs) < 4 && len(pendingFinish) == 0:
 			// overlapped creation: snapshot now, the rest later
 			s := genSpec(r, envs, false)
-			if s.Fail == 1 || s.Fail == 2 || s.Fail == 4 {
+			if s.Fail == 1 || s.Fail == 2 || s.Fail == 4 || s.Fail == 6 {
 				s.Fail = 0
 			}
 			envs = append(envs, &genEnv{spec: s, pending: true})
@@ -502,7 +508,7 @@ func generate(o gen.Opts, prop string) ([]History, []string) {
 	for len(hs) < o.N {
 		h, k := randomHistory(r.Fork(), slowBudget > 0)
 		for _, op := range h.Ops {
-			if op.Spec != nil && op.Spec.Fail == 4 {
+			if op.Spec != nil && (op.Spec.Fail == 4 || op.Spec.Fail == 6) {
 				slowBudget--
 			}
 		}
